@@ -189,7 +189,7 @@ pub fn rcgen_csrs(rng: &mut Rng, pool: &[PoolKey], n: usize) -> Vec<Base> {
 			},
 		);
 		spec.nc = None;
-		if let Ok(csr) = spec.to_rcgen(None).serialize_request(&k.kp) {
+		if let Ok(Ok(csr)) = crate::guard(|| spec.to_rcgen(None).serialize_request(&k.kp)) {
 			out.push(Base {
 				label: format!("rcgen:{}:ku={} san={} eku={} custom={}", k.label, spec.ku != 0, spec.sans.len(), spec.ekus.len(), spec.custom.len()),
 				der: csr.der().to_vec(),
@@ -459,7 +459,11 @@ pub fn run(ctx: &Ctx, pool: &[PoolKey]) {
 			let with_custom = b & 8 != 0 && rng.chance(1, 3);
 			fill_presence(&mut rng, &mut spec, Presence { ku: b & 1 != 0, san: b & 2 != 0, eku: b & 4 != 0, custom: with_custom, ..Default::default() });
 			spec.nc = None;
-			if let Ok(csr) = spec.to_rcgen(None).serialize_request(&k.kp) {
+			let made = crate::guard(|| spec.to_rcgen(None).serialize_request(&k.kp));
+			if made.is_err() {
+				ctx.count("base_request_generation_panicked");
+			}
+			if let Ok(Ok(csr)) = made {
 				bases.push(Base {
 					label: format!("rcgen:{}:ku={} san={} eku={} custom={}", k.label, spec.ku != 0, spec.sans.len(), spec.ekus.len(), spec.custom.len()),
 					der: csr.der().to_vec(),
